@@ -17,5 +17,6 @@ cd /verif
 VERIF_REPO="$work/repo" VERIF_EVIDENCE_DIR="$work/ev" VERIF_FAIL_DIR="$work/fails" ./check "$id" "$tier" > "$work/out.txt" 2>&1; rc=$?
 grep -E "^(VIOLATION|  detail|INCONCLUSIVE|BUILD|HARNESS)" "$work/out.txt" | head -6
 if [ $rc -eq 2 ]; then tail -15 "$work/out.txt"; fi
+if [[ "$*" == *--keep-replays* ]]; then rm -rf /verif/.build/mutant-fails; cp -r "$work/fails" /verif/.build/mutant-fails 2>/dev/null; fi
 echo "check $id $tier on $(basename "$patch"): exit $rc"
 exit 0
